@@ -170,10 +170,28 @@ def run(case, ctx):
                     check((f is not None) == leaves, "fpga-link",
                           "link %r of on-board chip %r: got %r, leaves=%r" %
                           (l, (bx, by), f, leaves), chip=(x, y), **where)
+    tables_unchanged(ctx, g)
     if most >= 2:
         ctx.mark_nontrivial()
     ctx.note(dict(max_ethernet_chips=most, torus=torus))
     return "ok"
+
+
+def tables_unchanged(ctx, g):
+    """the module's documented tables are data users read directly: asking
+    the functions questions does not edit them"""
+    t = getattr(g, "SPINN5_FPGA_LINKS", None)
+    ctx.hit("documented_tables_examined")
+    check(isinstance(t, dict) and len(t) == 48 and
+          all(isinstance(v, tuple) and len(v) == 2 for v in t.values()) and
+          len(set(t.values())) == 48, "fpga-table-changed",
+          "SPINN5_FPGA_LINKS now has %d entries, %d of them not (fpga, link) "
+          "pairs; the board has 48 links leaving it" %
+          (len(t or ()), sum(1 for v in (t or {}).values()
+                             if not isinstance(v, tuple))))
+    o = getattr(g, "SPINN5_ETH_OFFSET", None)
+    check(o is not None and len(o) == 12 and all(len(r) == 12 for r in o),
+          "eth-offset-table-changed", "SPINN5_ETH_OFFSET is no longer 12x12")
 
 
 def run_fpga_ids(case, ctx, g, Links):
@@ -192,6 +210,7 @@ def run_fpga_ids(case, ctx, g, Links):
                       "%r used by %r and %r" % (f, ids.get(f), (bx, by, l)))
                 ids[f] = (bx, by, int(l))
     ctx.hit("fpga_ids_distinct")
+    tables_unchanged(ctx, g)
     check(len(ids) == 48, "oracle", "board has %d edge links" % len(ids))
     ctx.mark_nontrivial()
     ctx.note(dict(edge_links=len(ids)))
